@@ -28,6 +28,9 @@ def gen(rng, tier):
             blind = lambda p: (p[0] if p[0] != v else t, tuple(x if x != v else t for x in p[1]))
             if len({blind(p) for p in g["prods"]}) == len(g["prods"]) and v != g["start"]:
                 g["alias"] = {v: t}
+        elif g["valmode"] == "str" and not g.get("alias") and rng.chance(0.2):
+            # variables that print alike (1 / "1"), or that are spelled like the stack symbols to_pda() invents
+            g["valmode"] = rng.pick(["pvar", "termname"])
         return {"kind": "cfg", "g": g}
     return {"kind": "pda", "p": GP.gen_pda(rng)}
 
